@@ -1,12 +1,171 @@
-import KG.Spec.ClusterSync
-/-! # C11 — hot reload converges to the latest object (work in progress: theorems follow) -/
+import KG.Lemmas.ClusterSync
+/-!
+# C11 — hot reload converges to the latest object's configuration, whatever the history
+
+Model: `KG.Model.ClusterSync` (`ClusterInfo.Sync` with every sub-sync, early return and error exit; the controller's
+`syncUpstreamCluster` with lister, manager and requeue).  Judge: `KG.Spec.ClusterSync.expected` — the observation
+(`observe`) the latest object alone prescribes.  All theorems hold for every `Env` (every deterministic behaviour of
+the external parsers) and every `Conn` (client connection settings fixed at creation).
+-/
 namespace KG.Props.C11
-open KG KG.Model.ClusterSync KG.Spec.ClusterSync
+open KG KG.Model.ClusterSync KG.Spec.ClusterSync KG.Lemmas.ClusterSync
+
+/-! ## facts regenerated from the sources on every run -/
 
 /-- the order of the sub-syncs in `ClusterInfo.Sync` the model mirrors is the one the source has now -/
 theorem c11_sync_order :
     KG.Gen.C11.syncOrder = ["nameCheck", "c.syncFeatureGate", "c.flowcontrol.ResetLimiter", "c.flowcontrol.Sync",
-      "c.syncEndpoints", "c.syncSecureServingConfigLocked", "c.currentDispatchPolicies.Store", "c.currentLoggingConfig.Store"] := by
+      "c.syncEndpoints", "c.syncSecureServingConfigLocked", "c.currentDispatchPolicies.Store", "c.currentLoggingConfig.Store"] ∧
+    KG.Gen.C11.syncReturnsErrOf = ["c.syncFeatureGate", "c.syncEndpoints", "c.syncSecureServingConfigLocked"] := by
   decide
+
+/-- `syncFeatureGate` applies the annotation to a copy of the DEFAULT gates, and the controller applies the
+    lister's current object -/
+theorem c11_source_shape :
+    KG.Gen.C11.gatesSetOnDefaultCopy = true ∧ KG.Gen.C11.controllerAppliesListerObject = true := by
+  decide
+
+/-! ## one `ClusterInfo` -/
+
+/-- every history (successful, refused and half-applied syncs in any mix) leaves a consistent `ClusterInfo` of the
+    same cluster with the same connection settings -/
+theorem c11_history_invariant (env : Env) (h : List Delivery) : ∀ (c s : CI), Inv env c → runHist env c h = some s →
+    Inv env s ∧ s.cluster = c.cluster ∧ s.conn = c.conn := by
+  induction h with
+  | nil =>
+    intro c s hI hr
+    simp only [runHist, List.foldl] at hr
+    injection hr with hr; subst hr
+    exact ⟨hI, rfl, rfl⟩
+  | cons d r ih =>
+    intro c s hI hr
+    simp only [runHist, List.foldl] at hr
+    cases hs : sync env c d.obj d.ord with
+    | ok c1 =>
+      simp only [stepHist, hs] at hr
+      have h1 : Inv env c1 ∧ c1.cluster = c.cluster ∧ c1.conn = c.conn := by
+        by_cases hn : c.cluster = env.lower d.obj.name
+        · obtain ⟨a, b, c', _⟩ := sync_ok_spec hI hs hn
+          exact ⟨a, b, c'⟩
+        · cases sync_ok_cases hs with
+          | inl hl => rw [hl.2]; exact ⟨hI, rfl, rfl⟩
+          | inr hr' => exact absurd hr'.1 hn
+      obtain ⟨a, b, c'⟩ := ih c1 s h1.1 hr
+      exact ⟨a, b.trans h1.2.1, c'.trans h1.2.2⟩
+    | fail e c1 =>
+      simp only [stepHist, hs] at hr
+      obtain ⟨a1, b1, c1', _⟩ := sync_fail_spec hI hs
+      obtain ⟨a, b, c'⟩ := ih c1 s a1 hr
+      exact ⟨a, b.trans b1, c'.trans c1'⟩
+    | crash =>
+      simp only [stepHist, hs] at hr
+      have : ∀ l : List Delivery, List.foldl (stepHist env) none l = none := by
+        intro l; induction l with
+        | nil => rfl
+        | cons x xs ihx => simp only [List.foldl, stepHist]; exact ihx
+      rw [this] at hr; cases hr
+
+/-- **C11 (one cluster)**: for EVERY history `h` of deliveries to one long-lived `ClusterInfo` — objects in any
+    order, any of them refused or applied only half-way (the state they leave behind is carried on) — if the gateway
+    is still alive and the last `Sync` succeeds for an object of this cluster, then what the gateway observes of the
+    cluster is exactly what that last object prescribes (`expected`), a freshly created `ClusterInfo` given only that
+    object is created successfully (whatever Go's map iteration order), and both observe the same. -/
+theorem c11_converge (env : Env) (conn : Conn) (name : Str) (h : List Delivery) (d : Delivery) (s s' : CI)
+    (hrun : runHist env (empty env conn name) h = some s)
+    (hlast : sync env s d.obj d.ord = .ok s')
+    (hname : env.lower d.obj.name = env.lower name) :
+    observe env s' = expected env conn d.obj ∧
+    ∀ ord', ∃ f, fresh env conn d.obj ord' = .ok f ∧ observe env f = observe env s' := by
+  obtain ⟨hI, hcl, hco⟩ := c11_history_invariant env h _ _ (empty_inv env conn name) hrun
+  have hn : s.cluster = env.lower d.obj.name := by rw [hcl, hname]; rfl
+  obtain ⟨_, _, _, hobs, happ, hsafe, hg⟩ := sync_ok_spec hI hlast hn
+  have hco' : s.conn = conn := hco
+  rw [hco'] at hobs happ hg
+  refine ⟨hobs, fun ord' => ?_⟩
+  obtain ⟨f, hf⟩ := fresh_progress ord' happ hsafe hg
+  refine ⟨f, hf, ?_⟩
+  obtain ⟨_, _, _, hobs', _⟩ := sync_ok_spec (empty_inv env conn d.obj.name) hf rfl
+  rw [hobs, hobs']; rfl
+
+/-- the same, as a statement about the fold over the whole history `h ++ [d]` -/
+theorem c11_converge_fold (env : Env) (conn : Conn) (name : Str) (h : List Delivery) (d : Delivery) (s' : CI)
+    (hrun : runHist env (empty env conn name) (h ++ [d]) = some s')
+    (hlast : ∀ s, runHist env (empty env conn name) h = some s → ∃ s'', sync env s d.obj d.ord = .ok s'')
+    (hname : env.lower d.obj.name = env.lower name) :
+    observe env s' = expected env conn d.obj ∧
+    ∀ ord', ∃ f, fresh env conn d.obj ord' = .ok f ∧ observe env f = observe env s' := by
+  simp only [runHist, List.foldl_append, List.foldl] at hrun
+  cases hs : List.foldl (stepHist env) (some (empty env conn name)) h with
+  | none => rw [hs] at hrun; simp [stepHist] at hrun
+  | some s =>
+    rw [hs] at hrun
+    obtain ⟨s'', hs''⟩ := hlast s hs
+    simp only [stepHist, hs''] at hrun
+    injection hrun with hrun; subst hrun
+    exact c11_converge env conn name h d s s'' hs hs'' hname
+
+/-- a `Sync` that fails — at whatever sub-sync, however far it got — changes neither the TLS material, nor the
+    verify options, nor the server names the cluster reports (so the controller's before/after comparison of
+    `LoadServerNames` is sound), and the next successful `Sync` repairs everything else (`c11_converge`) -/
+theorem c11_failed_sync_keeps_serving_config (env : Env) (c c' : CI) (o : Obj) (ord : List Str) (e : Err)
+    (hI : Inv env c) (h : sync env c o ord = .fail e c') :
+    loadTLSConfig c' = loadTLSConfig c ∧ loadVerifyOptions c' = loadVerifyOptions c ∧
+    loadServerNames env c' = loadServerNames env c := by
+  obtain ⟨_, hcl, _, hss⟩ := sync_fail_spec hI h
+  simp only [loadTLSConfig, loadVerifyOptions, loadServerNames, loadSS, hss, hcl]
+  exact ⟨trivial, trivial, trivial⟩
+
+/-- the process only panics on objects admission validation rejects: with schemas that all have the member their
+    limiter type needs, and `GlobalRateLimiter` a registered gate, no `Sync` panics -/
+theorem c11_no_panic (env : Env) (c : CI) (o : Obj) (ord : List Str) (hI : Inv env c)
+    (hs : ∀ s ∈ o.schemas, safe s)
+    (hg : ∀ g, (g = env.defaultGates ∨ ∃ v, env.setGates v = some g) → (alookup strGlobalRateLimiter g).isSome = true) :
+    (∀ g, c.gates = g → True) → sync env c o ord ≠ .crash := by
+  intro _ hcr
+  unfold sync at hcr
+  by_cases hn : c.cluster ≠ env.lower o.name
+  · rw [if_pos hn] at hcr; cases hcr
+  · rw [if_neg hn] at hcr
+    cases h1 : syncFeatureGate env c o.annotations with
+    | error e => rw [h1] at hcr; cases hcr
+    | ok c1 =>
+      rw [h1] at hcr; simp only at hcr
+      obtain ⟨hc1, hg1, hga⟩ := syncFeatureGate_spec h1
+      have hgl : (alookup strGlobalRateLimiter c1.gates).isSome = true := by
+        apply hg
+        rw [hg1]
+        unfold expGates
+        simp only
+        by_cases hv : (gateAnnotation o.annotations).length = 0
+        · rw [if_pos hv]; exact Or.inl rfl
+        · rw [if_neg hv]
+          obtain ⟨g, hgs⟩ := Option.isSome_iff_exists.1 (hga hv)
+          rw [hgs]; exact Or.inr ⟨_, hgs⟩
+      cases h2 : getFlowControlType c1.conn.globalRateLimiter c1.gates with
+      | none =>
+        unfold getFlowControlType at h2
+        by_cases hr : c1.conn.globalRateLimiter = strRemote
+        · rw [if_pos hr] at h2
+          obtain ⟨b, hb⟩ := Option.isSome_iff_exists.1 hgl
+          rw [hb] at h2
+          cases b <;> cases h2
+        · rw [if_neg hr] at h2; cases h2
+      | some t =>
+        rw [h2] at hcr; simp only at hcr
+        have hF2 : FInv (resetLimiter c1 t) := by
+          rw [resetLimiter_spec]
+          exact FInv_of_eq (a := c) (by simp only; rw [hc1]) (by simp only; rw [hc1]) hI.1
+        obtain ⟨c3, h3⟩ := syncLocalFlowControls_progress hF2 hs
+        rw [h3] at hcr; simp only at hcr
+        cases h4 : syncEndpoints env c3 o.servers ord with
+        | mk c4 err =>
+          rw [h4] at hcr
+          cases err with
+          | some e => cases hcr
+          | none =>
+            simp only at hcr
+            cases h5 : syncSecureServing env c4 o.secureServing with
+            | error e => rw [h5] at hcr; cases hcr
+            | ok c5 => rw [h5] at hcr; cases hcr
 
 end KG.Props.C11
